@@ -650,6 +650,12 @@ class Engine:
         # status predicates
         if isinstance(test, ast.Call) and isinstance(test.func, ast.Attribute) and test.func.attr in ("is_available_for_run", "is_final", "can_transition_to"):
             recv = self.pure(test.func.value, fr, st)
+            rv = test.func.value
+            if isinstance(rv, ast.Call) and call_name(rv) == "get_invocation_status" and rv.args:
+                # the predicate applied directly to a fresh status read: self.get_invocation_status(x).is_...()
+                a0 = self.pure(rv.args[0], fr, st)
+                if isinstance(a0, Inv):
+                    recv = StatusOf(a0.tok)
             if isinstance(recv, StatusOf) and recv.tok in st.istates:
                 cur = st.istates[recv.tok]
                 if test.func.attr == "is_available_for_run":
@@ -695,7 +701,9 @@ class Engine:
                 isin = isinstance(test.ops[0], ast.In)
                 # the popped id may denote an invocation this call already claimed (a duplicate message)
                 if st.members(r):
-                    s1 = ev(st, Event("GUARD", l.tok, "already-claimed-here", fr.f.qualname, test.lineno, fr.f.module.relpath))
+                    # ... which is only a reason to drop the message when every listed id really is held by this actor
+                    held = all(st.istates[m].own and st.istates[m].status and st.istates[m].status <= frozenset({"PENDING", "RUNNING"}) for m in st.members(r) if m in st.istates)
+                    s1 = ev(st, Event("GUARD", l.tok, "already-claimed-here" if held else "listed-but-not-claimed", fr.f.qualname, test.lineno, fr.f.module.relpath))
                     yield s1, isin, fr, None
                 yield st, (not isin), fr, None
                 return
